@@ -239,9 +239,16 @@ def run(ctx: Ctx):
         lists.append([dict(c, rs=c["rs"] * SCALE, re=c["re"] * SCALE, len=2500) for c in cs])
     lists += [random_calls(rng) for _ in range(3000 if quick else 60000)]
     records = []
-    for calls in lists:
-        out = wif.cluster_indels([as_line(c) for c in copy.deepcopy(calls)])
+    for n_list, calls in enumerate(lists):
+        given = [as_line(c) for c in copy.deepcopy(calls)]
+        out = wif.cluster_indels(given)
         records.append({"kind": "cluster", "calls": calls, "obs": observe_clusters(out)})
+        if n_list % 3 == 0:
+            # the caller clusters the calls it holds once more (another report of the same finder result): the list
+            # object handed over the first time is handed over again and judged against the same calls
+            again = wif.cluster_indels(given)
+            records.append({"kind": "cluster", "calls": calls, "obs": observe_clusters(again),
+                            "via": "second clustering of the same list object"})
         if any(abs(a["re"] - b["re"]) <= 30000 for a, b in zip(calls, calls[1:])):
             ctx.nontrivial(repr(calls))
     # write_indel_file: both types, file parsed independently
@@ -249,8 +256,11 @@ def run(ctx: Ctx):
         ins = [dict(c, type="insertion", len=-abs(c["len"])) for c in random_calls(rng)]
         dele = [dict(c, type="deletion", len=abs(c["len"])) for c in random_calls(rng)]
         path = os.path.join(ctx.workdir, "indels.txt")
-        wif.write_indel_file({"insertion": [as_line(c) for c in copy.deepcopy(ins)],
-                              "deletion": [as_line(c) for c in copy.deepcopy(dele)]}, "x.xmap", file_name=path)
+        found = {"insertion": [as_line(c) for c in copy.deepcopy(ins)],
+                 "deletion": [as_line(c) for c in copy.deepcopy(dele)]}
+        wif.write_indel_file(found, "x.xmap", file_name=path)
+        if k % 2:
+            wif.write_indel_file(found, "x.xmap", file_name=path)      # the same finder result written a second time
         rows = [ln.rstrip("\n").split("\t") for ln in open(path) if not ln.startswith("#")]
         for typ, calls in (("insertion", ins), ("deletion", dele)):
             obs = observe_clusters([[r[0], r[1], r[2], r[3], r[4], r[5], r[6], r[7], r[8]] for r in rows if r[0] == typ])
